@@ -40,6 +40,8 @@ REQUIRED = {
         'datasets-with-a-grid-coarser-than-some-rises': 2,
         'main-body-identified': 100,
         'head-mappings-compared-under-relabelling': 100,
+        'head-mappings-with-1000+-series-compared-under-relabelling': 1,
+        'collections-handed-in-again-as-the-same-objects': 100,
         'recession:main-body-checked': 10,
         'rise:main-body-checked': 10,
         'recession:curves-with-2+-components': 5,
@@ -298,6 +300,29 @@ def check_collection(ctx, rng, step, series, case=None):
             rec.violation('result-depends-on-the-order-of-intervals', {'permutation': perm, 'offset_difference': d, 'curve_difference': d2, 'scale': scale}, case, 'collection')
             return
     rec.hit('collections-compared-under-permutation')
+    # the caller keeps its arrays: the very same objects handed in again in another order (no
+    # copies) must give the same alignment, and must not have been changed by the first call
+    kept = [(t.copy(), H.copy()) for t, H in series]
+    snapshots = [(t.tobytes(), H.tobytes()) for t, H in kept]
+    try:
+        fo.get_series_time_offsets(list(kept), step)
+        changed = [i for i, (t, H) in enumerate(kept) if (t.tobytes(), H.tobytes()) != snapshots[i]]
+        if changed:
+            rec.violation('the-intervals-handed-in-are-modified', {'series': changed[:5]}, case, 'collection')
+            return
+        perm = list(range(n))
+        rng.shuffle(perm)
+        ind4, off4, mp4 = fo.get_series_time_offsets([kept[p] for p in perm], step)
+    except Exception as exc:  # pylint: disable=broad-except
+        rec.violation('collection-handed-in-again-raises', {'exception': core.describe_exception(exc)}, case, 'collection')
+        return
+    back = [perm[i] for i in ind4]
+    ok, d = close(rel(back, off4), base, scale)
+    ok2, d2 = close(master(back, off4, {k: [(perm[s_], t_) for s_, t_ in seq] for k, seq in mp4.items()}), mbase, scale)
+    if not (ok and ok2):
+        rec.violation('result-changes-when-the-same-arrays-are-handed-in-again', {'offset_difference': d, 'curve_difference': d2, 'scale': scale}, case, 'collection')
+        return
+    rec.hit('collections-handed-in-again-as-the-same-objects')
     if fresh:
         rec.hit('collections-compared-across-orders-each-in-its-own-process')
         for which, (rel_f, master_f) in zip(('as given', 'reversed'), fresh):
@@ -331,14 +356,16 @@ def check_collection(ctx, rng, step, series, case=None):
                         'first_series_H': [round(float(v), 3) for v in series[0][1][:6]], 'relative_offsets': {str(k): round(v, 3) for k, v in list(base.items())[:5]}})
 
 
-def check_relabelling(ctx, rng):
+def check_relabelling(ctx, rng, many=False):
     """find_offsets: another series as the internal zero"""
     import spowtd.fit_offsets as fo
     from .c05 import gen_head_mapping
 
     rec = ctx.rec
     rec.case()
-    hm, graph, n = gen_head_mapping(rng)
+    hm, graph, n = gen_head_mapping(rng, many=many)
+    if many:
+        rec.hit('head-mappings-with-1000+-series-compared-under-relabelling')
     case = {'kind': 'head_mapping', 'head_mapping': {str(k): [[s, t] for s, t in v] for k, v in hm.items()}}
     ids = sorted({s for seq in hm.values() for s, _ in seq})
     try:
@@ -397,8 +424,8 @@ def run(ctx):
             step, series = gen_collection(rng)
         check_collection(ctx, rng, step, series)
     rng = ctx.rng('relabel')
-    for _ in range(ctx.share(s['hm'])):
-        check_relabelling(ctx, rng)
+    for i in range(ctx.share(s['hm'])):
+        check_relabelling(ctx, rng, many=(i % 200 == 5))
     rng = ctx.rng('datasets')
     n = ctx.share(s['ds'])
     ncli = ctx.share(s['cli'])
